@@ -48,6 +48,16 @@ impl Type {
         record.find_field(symbol_map, name)
     }
 
+    /// How much a type says: `?`, the element type of `[]` and a type that could not be
+    /// determined fit everything and say nothing.
+    pub fn specificity(&self) -> usize {
+        match self {
+            Self::Uninitialized | Self::Unknown | Self::Any => 0,
+            Self::List(elm_typ) => 1 + elm_typ.specificity(),
+            _ => 1,
+        }
+    }
+
     pub fn can_be_casted_to(&self, symbol_map: &SymbolMap, other: &Type) -> bool {
         match (self, other) {
             (Self::Uninitialized, _) | (_, Self::Uninitialized) => true,
